@@ -55,3 +55,10 @@ Definition fig (f : figure) (r : res) : Q :=
   | FCo2 i => nth i (r_co2 r) 0
   end.
 Definition wf_res (n : nat) (r : res) : Prop := length (r_scalars r) = n /\ length (r_co2 r) = 3%nat.
+
+(* consecutive periods: res = res.sum_and_extend_duration(res_part) *)
+Definition accumulate_periods (start : res) (l : list res) : outcome :=
+  fold_left (fun acc r => match acc with Merged a => merge false a r | e => e end) l (Merged start).
+
+(* interval-weighted integration (IntegrationMethod.sum_with_time): dot product of rate and interval *)
+Definition integrate {X} (g : X -> Q) (xs : list X) (dt : list Q) : Q := qdot (map g xs) dt.
